@@ -675,3 +675,35 @@ def is_bitstr_80():
     assert is_bitstr('10000')
     assert is_bitstr('100000')
     assert is_bitstr('1000000')
+
+
+@lemma
+def clear_top(v: Int, q: Int):
+    """dropping everything above 7 bits over a unit q:  (v mod 128q) div q == (v div q) mod 128"""
+    requires(v >= 0 and q > 0)
+    ensures((v % (128 * q)) // q == (v // q) % 128)
+
+
+@lemma
+def clear_top_p(v: Int, n: Int):
+    """clearing bit n-1 of v (and everything above): the octet at bits n-8..n-1 keeps its low 7 bits"""
+    requires(v >= 0 and n >= 8)
+    ensures((v % pow2(n - 1)) // pow2(n - 8) == (v // pow2(n - 8)) % 128)
+    ensures(((v % pow2(n - 1)) // pow2(n - 8)) % 256 == ((v // pow2(n - 8)) % 256) % 128)
+    pow2_add(7, n - 8)
+    clear_top(v, pow2(n - 8))
+
+
+@lemma
+def div_div128(v: Int, q: Int):
+    requires(v >= 0 and q > 0)
+    ensures((v // q) // 128 == v // (128 * q))
+
+
+@lemma
+def octet_top(v: Int, n: Int):
+    """the next unread bit (bit n-1) is the top bit of the next unread octet (bits n-8..n-1)"""
+    requires(v >= 0 and n >= 8)
+    ensures((v // pow2(n - 1)) % 2 == ((v // pow2(n - 8)) % 256) // 128)
+    pow2_add(7, n - 8)
+    div_div128(v, pow2(n - 8))
